@@ -1,7 +1,36 @@
 import Magog.Lemmas.Geometry
 import Magog.Model.Notation
+import Magog.Lemmas.Replay
+import Magog.Lemmas.LegalLinkProof
+import Magog.Props.C02
 
-/-! Property C07 — move notation round-trips (all 64·64·5 moves); `position` replay theorems follow. -/
+/-! Property C07 — move notation round-trips (all 64·64·5 moves), and `position … moves m1 … mk` sets up
+    exactly the position obtained by playing the moves.
+
+Part 1 (notation): `move_roundtrip`, `parse_short`.
+
+Part 2 (replay). `Model.applyUciMove` models `Generator.ApplyUciMove`: the text of a move carries no
+en-passant mark, so the function RECONSTRUCTS it ("a pawn goes from rank 2 to rank 4 or from rank 7 to rank 5",
+colour not tested), calls `MakeMove` and panics when the verdict is "illegal". `Model.applyMoves` is the move
+loop of `doPosition`, `Model.uciStep` the whole line interpreter (Magog/Model/Uci.lean).
+
+* `applyUci_eq`, `ep_reconstruction` — for every generated move the reconstructed en-passant mark is the
+  generator's own, so `ApplyUciMove` on the text form is `MakeMove` on the generated move.
+* `parse_print_generated` — a generated move is printed without panic, as the coordinate notation
+  `Spec.moveText` of the move of the rules it denotes, and parses back (lower or upper case) to its text form.
+* `C07_replay_model` / `C07_replay_model_uci` — replaying the text forms of a game of generated, accepted
+  moves (`GameOk`) through `applyUciMove` / through the `doPosition` loop yields `playM p ms`, for any length.
+* `C07_replay_spec` — for every list of moves LEGAL BY THE RULES from `abs p` (`Spec.play (abs p) sms = some P'`)
+  the loop run on their coordinate notations ends in a position `q` with `abs q = P'`.
+* `C07_position_startpos`, `C07_position_fen` — the same for the whole input LINE
+  `position startpos moves …` / `position fen <FEN> moves …` through `uciStep` (Go's `strings.Index`,
+  `TrimSpace`, `Split` included), `C07_position_startpos_nomoves` for `position startpos`. The lines are
+  `PosCmd.startposLine texts` / `PosCmd.fenLine f texts` (Magog/Lemmas/PositionCmd.lean): the word `position`, a
+  blank, the head (`startpos` / `fen <f>`), a blank, the word `moves`, a blank, the texts joined by single blanks.
+* `position_fen_moves_word_finding` — FINDING: a text the FEN loader accepts whose (ignored) half-move field
+  contains the word `moves` is cut there by `doPosition` and rejected; hence the hypothesis on the FEN text.
+* `Replay.LegalLink` (hypothesis of the `_spec` theorems: a legal move of the rules is denoted by a generated
+  move that `makeMove` accepts) is discharged by `legalLink_holds`; the `…_unconditional` corollaries use it. -/
 
 namespace Magog.Props.C07
 open Magog Magog.Model Magog.Geo
@@ -125,5 +154,332 @@ theorem parse_short (lower : Bytes → Bytes) (s : Bytes) (h : (lower s).length 
   | [_, _] => simp
   | [_, _, _] => simp
   | _ :: _ :: _ :: _ :: _ => exfalso; simp [hl] at h; omega
+
+/-! ## `position … moves m1 … mk` -/
+
+open Magog.MM Magog.Replay
+
+/-- **The en-passant mark is reconstructed exactly.** For a generated move `m` of a well-formed position,
+    with `pc` the man on its origin square: `m.ep` is `(frm + to) / 2` if `ApplyUciMove`'s test fires (`pc` is a
+    pawn of either colour going from rank 7 to 5 or from rank 2 to 4) and "none" otherwise. (A white pawn never
+    goes 7→5 and a black one never 2→4 among generated moves; the only generated moves passing the test are
+    the double pushes, whose mark is the skipped square.) -/
+theorem ep_reconstruction {p : Position} {m : Move} (hI : Inv p) (hG : MM.Generated p m) :
+    ∃ pc, p.board[m.frm]? = some pc ∧
+      m.ep = if pc &&& Colorless == Pawn &&
+                ((rankOf m.frm == Gen.Rank7 && rankOf m.to == Gen.Rank5) ||
+                 (rankOf m.frm == Gen.Rank2 && rankOf m.to == Gen.Rank4))
+             then ((m.frm + m.to) % 256) / 2 else InvalidSq := by
+  obtain ⟨pc, hpc, hfix⟩ := uci_fix hI hG
+  refine ⟨pc, hpc, ?_⟩
+  have h := congrArg Move.ep hfix
+  rw [← h]
+  unfold fixEp uciForm needsEp
+  split <;> rfl
+
+/-- **C07, step.** `ApplyUciMove` on the text form of a generated move (origin, destination, promotion piece;
+    no en-passant mark) is `MakeMove` on the generated move itself, followed by the legality panic. -/
+theorem applyUci_eq {p : Position} {m : Move} (hI : Inv p) (hG : MM.Generated p m) :
+    applyUciMove p ⟨m.frm, m.to, m.promo, InvalidSq⟩ = (do
+      let r ← makeMove p m
+      if r.2 then pure r.1 else throw (.explicit "Applying uci move resulted in illegal position")) :=
+  applyUci_generated hI hG
+
+/-- 1.e4 from the start position: the text form `e2e4` has no mark, the position reached has the en-passant
+    square e3 -/
+example : ∃ p', applyUciMove startPosition ⟨Gen.E2, Gen.E4, 0, InvalidSq⟩ = .ok p' ∧ p'.ep = Gen.E3 := by
+  obtain ⟨p', h, _⟩ := (gameOk_of_B (kt := Killers.empty) (p := startPosition)
+    (ms := [⟨Gen.E2, Gen.E4, 0, Gen.E3⟩]) (by decide +kernel)).2
+  refine ⟨p', ?_, ?_⟩
+  · have := applyUci_eq inv_startPosition C02.generated_e2e4
+    rw [show (⟨Gen.E2, Gen.E4, 0, InvalidSq⟩ : Move) = ⟨0x14, 0x34, 0, InvalidSq⟩ from rfl, this]
+    rw [show (⟨0x14, 0x34, 0, 0x24⟩ : Move) = ⟨Gen.E2, Gen.E4, 0, Gen.E3⟩ from rfl, h]
+    rfl
+  · obtain ⟨_, _, _, _, _, _, _, _, _, _, _, hep⟩ := MMAbs.makeMove_fields h
+    exact hep
+
+example : ∃ pc, startPosition.board[Gen.E2]? = some pc ∧
+    (pc &&& Colorless == Pawn && ((rankOf Gen.E2 == Gen.Rank7 && rankOf Gen.E4 == Gen.Rank5) ||
+      (rankOf Gen.E2 == Gen.Rank2 && rankOf Gen.E4 == Gen.Rank4))) = true ∧ ((Gen.E2 + Gen.E4) % 256) / 2 = Gen.E3 :=
+  ⟨Gen.WPawn, by decide +kernel, by decide, by decide⟩
+
+/-- **C07, printing a generated move.** A move generated on a well-formed position is printed without panic;
+    the text is the coordinate notation of the move of the rules it denotes; read back by the parser (as
+    printed or in upper case) it gives origin, destination and promotion piece of the move, without
+    en-passant mark. (`Inv p` is needed: it puts the squares of the piece lists on the board.) -/
+theorem parse_print_generated {p : Position} {m : Move} (hI : Inv p) (hG : MM.Generated p m) :
+    ∃ s, moveString m = .ok s ∧ s = Spec.moveText (absMove m) ∧
+      parseMoveString asciiLower s = some ⟨m.frm, m.to, m.promo, InvalidSq⟩ ∧
+      parseMoveString asciiLower (upper s) = some ⟨m.frm, m.to, m.promo, InvalidSq⟩ := by
+  obtain ⟨hf, ht, hp⟩ := generated_shape hI hG
+  have hpc : m.promo ∈ promoCodes := by
+    unfold promoCodes
+    rcases hp with h | h | h | h | h <;> simp [h]
+  obtain ⟨s, hs, h1, h2⟩ := move_roundtrip m.frm m.to m.promo hf ht hpc
+  have hs' : moveString m = .ok s := hs
+  refine ⟨s, hs', ?_, h1, h2⟩
+  have := moveString_generated hI hG
+  rw [hs'] at this
+  exact Except.ok.inj this
+
+example : ∃ s, moveString ⟨Gen.E2, Gen.E4, 0, Gen.E3⟩ = .ok s ∧ s = [101, 50, 101, 52] ∧
+    parseMoveString asciiLower s = some ⟨Gen.E2, Gen.E4, 0, InvalidSq⟩ := by
+  obtain ⟨s, h1, h2, h3, _⟩ := parse_print_generated inv_startPosition C02.generated_e2e4
+  exact ⟨s, h1, h2.trans (by decide +kernel), h3⟩
+
+/-- 1.e4 e5 2.Nf3 -/
+def demoGame : List Move :=
+  [⟨Gen.E2, Gen.E4, 0, Gen.E3⟩, ⟨Gen.E7, Gen.E5, 0, Gen.E6⟩, ⟨Gen.G1, Gen.F3, 0, InvalidSq⟩]
+
+/-- `e2e4 e7e5 g1f3` -/
+def demoTexts : List Bytes := [[101, 50, 101, 52], [101, 55, 101, 53], [103, 49, 102, 51]]
+
+theorem demoGame_ok : GameOk startPosition demoGame := gameOk_of_B (kt := Killers.empty) (by decide +kernel)
+
+theorem demoTexts_printed : Rel₂ (fun m s => moveString m = .ok s) demoGame demoTexts :=
+  ⟨rfl, rfl, rfl, trivial⟩
+
+/-- **C07, replay (model level).** Folding `ApplyUciMove` over the text forms of a game of generated, accepted
+    moves — of any length — gives exactly the position reached by playing the moves with `MakeMove`. -/
+theorem C07_replay_model {p : Position} {ms : List Move} (hI : Inv p) (hS : OppSafe p) (hG : GameOk p ms) :
+    (ms.map fun m => (⟨m.frm, m.to, m.promo, InvalidSq⟩ : Move)).foldlM applyUciMove p = playM p ms :=
+  replay_fold hI hS hG
+
+example : (demoGame.map fun m => (⟨m.frm, m.to, m.promo, InvalidSq⟩ : Move)).foldlM applyUciMove startPosition
+    = playM startPosition demoGame :=
+  C07_replay_model inv_startPosition C02.oppSafe_start demoGame_ok
+
+/-- **C07, replay through the `doPosition` loop.** For an interpreter whose `ApplyUciMove` is the model's and
+    whose `ToLower` is ASCII lower-casing: if the strings `texts` are the printed forms of a game `ms` of
+    generated, accepted moves from the current position `p`, the loop parses every string, applies it without
+    panic, prints nothing and ends in the position `playM p ms` (killer table cleared). -/
+theorem C07_replay_model_uci {ops : EngineOps} (hap : ops.applyMove = applyUciMove) (hlow : ops.str.lower = asciiLower)
+    {p : Position} {ms : List Move} {texts : List Bytes} (st : UciState) (hp : st.pos = some p)
+    (hI : Inv p) (hS : OppSafe p) (hG : GameOk p ms)
+    (hprint : Rel₂ (fun m s => moveString m = .ok s) ms texts) :
+    ∃ q, playM p ms = .ok q ∧ Inv q ∧ OppSafe q ∧
+      applyMoves ops st texts = .ok (({ st with pos := some q } : UciState).clearKillers, []) := by
+  refine applyMoves_replay hap st hp hI hS hG (Rel₂.imp_mem ?_ hprint)
+  intro m hm s hs
+  obtain ⟨hf, ht, hpr⟩ := gameOk_shape hI hS hG m hm
+  have hpc : m.promo ∈ promoCodes := by
+    unfold promoCodes
+    rcases hpr with h | h | h | h | h <;> simp [h]
+  obtain ⟨s', hs', h1, _⟩ := move_roundtrip m.frm m.to m.promo hf ht hpc
+  have : moveString m = .ok s' := hs'
+  rw [hs] at this
+  rw [hlow, Except.ok.inj this]
+  exact h1
+
+example (blend : Blend) (tostr : Position → M Bytes) (st : UciState) (hp : st.pos = some startPosition) :
+    ∃ q, playM startPosition demoGame = .ok q ∧ Inv q ∧ OppSafe q ∧
+      applyMoves (modelOps blend tostr) st demoTexts = .ok (({ st with pos := some q } : UciState).clearKillers, []) :=
+  C07_replay_model_uci rfl rfl st hp inv_startPosition C02.oppSafe_start demoGame_ok demoTexts_printed
+
+/-- **C07, replay against the rules.** Under `LegalLink`: for every list `sms` of moves that the RULES allow
+    from the position `abs p` (`Spec.play (abs p) sms = some P'`, any length) there is a game `ms` of generated,
+    accepted engine moves denoting them, `playM p ms` ends in a well-formed `q` with `abs q = P'`, and the
+    `doPosition` loop run on the coordinate notations `sms.map Spec.moveText` ends in that `q`. -/
+theorem C07_replay_spec (hL : LegalLink) {ops : EngineOps} (hap : ops.applyMove = applyUciMove)
+    (hlow : ops.str.lower = asciiLower) {p : Position} (st : UciState) (hp : st.pos = some p)
+    (hI : Inv p) (hS : OppSafe p) {sms : List Spec.Move} {P' : Spec.Pos} (hplay : Spec.play (abs p) sms = some P') :
+    ∃ ms q, ms.map absMove = sms ∧ GameOk p ms ∧ playM p ms = .ok q ∧ Inv q ∧ OppSafe q ∧ abs q = P' ∧
+      applyMoves ops st (sms.map Spec.moveText) = .ok (({ st with pos := some q } : UciState).clearKillers, []) := by
+  obtain ⟨ms, q, hmap, hgame, hplayM, hIq, hSq, habs⟩ := play_spec hL sms hI hS hplay
+  have hprint : Rel₂ (fun m s => moveString m = .ok s) ms (sms.map Spec.moveText) := by
+    rw [← hmap, List.map_map]
+    refine Rel₂.map_right _ ?_
+    intro m hm
+    obtain ⟨hf, ht, hpr⟩ := gameOk_shape hI hS hgame m hm
+    unfold moveString Spec.moveText absMove Function.comp
+    simp only [sqString_text _ hf, sqString_text _ ht]
+    rcases hpr with h | h | h | h | h <;> rw [h] <;> rfl
+  obtain ⟨q', hq', _, _, hrun⟩ := C07_replay_model_uci hap hlow st hp hI hS hgame hprint
+  rw [hplayM] at hq'
+  cases hq'
+  exact ⟨ms, q, hmap, hgame, hplayM, hIq, hSq, habs, hrun⟩
+
+/-- `Replay.LegalLink` holds (completeness of the pseudo-legal generator for legal moves, `makeMove`'s verdict
+    = "mover's king not attacked" in the terms of the rules, new board = the rules' new board). -/
+theorem legalLink_holds : LegalLink := legalLink
+
+/-- `C07_replay_spec` without hypothesis on the legality filter -/
+theorem C07_replay_spec_unconditional {ops : EngineOps} (hap : ops.applyMove = applyUciMove)
+    (hlow : ops.str.lower = asciiLower) {p : Position} (st : UciState) (hp : st.pos = some p)
+    (hI : Inv p) (hS : OppSafe p) {sms : List Spec.Move} {P' : Spec.Pos} (hplay : Spec.play (abs p) sms = some P') :
+    ∃ ms q, ms.map absMove = sms ∧ GameOk p ms ∧ playM p ms = .ok q ∧ Inv q ∧ OppSafe q ∧ abs q = P' ∧
+      applyMoves ops st (sms.map Spec.moveText) = .ok (({ st with pos := some q } : UciState).clearKillers, []) :=
+  C07_replay_spec legalLink_holds hap hlow st hp hI hS hplay
+
+/-- 1.e4 e5 2.Nf3 as moves of the rules (squares 0…63) -/
+def demoSpecGame : List Spec.Move := [⟨12, 28, none⟩, ⟨52, 36, none⟩, ⟨6, 21, none⟩]
+
+theorem demoSpecGame_legal : (Spec.play Spec.startPos demoSpecGame).isSome = true := by decide +kernel
+
+theorem demoSpecGame_text : demoSpecGame.map Spec.moveText = demoTexts := by decide +kernel
+
+/-! ### the whole input line -/
+
+open Magog.PosCmd (startposLine fenLine)
+
+theorem demoLine_eq : FenSpec.strBytes "position startpos moves e2e4 e7e5 g1f3" = startposLine demoTexts := by
+  decide +kernel
+
+example : fenLine (FenSpec.strBytes "4k3/8/8/8/8/8/4P3/4K3 w - - 0 1") [[101, 50, 101, 52]]
+    = FenSpec.strBytes "position fen 4k3/8/8/8/8/8/4P3/4K3 w - - 0 1 moves e2e4" := by decide +kernel
+
+/-- the texts of a game of generated, accepted moves are blank-free ASCII words -/
+theorem game_words {p : Position} {ms : List Move} (hI : Inv p) (hS : OppSafe p) (hG : GameOk p ms) :
+    ∀ t ∈ (ms.map absMove).map Spec.moveText, PosCmd.Word t := by
+  intro t ht
+  rw [List.map_map] at ht
+  obtain ⟨m, hm, rfl⟩ := List.mem_map.mp ht
+  obtain ⟨hf, hto, _⟩ := gameOk_shape hI hS hG m hm
+  exact moveText_word (Atk.to64_lt hf) (Atk.to64_lt hto)
+
+/-- the common part of the two start forms: a line `position <head> moves …` whose head sets the position `p` -/
+theorem position_line (hL : LegalLink) {ops : EngineOps} (hstr : ops.str = goStrEnv)
+    (hap : ops.applyMove = applyUciMove) (st : UciState) (head : Bytes) (hm : 109 ∉ head) (hends : PosCmd.Ends head)
+    {p : Position} (hhead : parsePosition ops st head = .ok ({ st with pos := some p }, none))
+    (hI : Inv p) (hS : OppSafe p) {sms : List Spec.Move} (hne : sms ≠ []) {P' : Spec.Pos}
+    (hplay : Spec.play (abs p) sms = some P') :
+    ∃ q, uciStep ops st (Gen.uPosition_bytes ++ 32 :: PosCmd.posCmd head (sms.map Spec.moveText))
+        = .ok (({ st with pos := some q } : UciState).clearKillers, []) ∧
+      abs q = P' ∧ Inv q ∧ OppSafe q ∧ (0 ≤ p.ply → p.ply + sms.length < 32768 → q.ply = p.ply + sms.length) := by
+  have hts : ops.str.trimSpace = trimSpace := by rw [hstr]; rfl
+  have hlow : ops.str.lower = asciiLower := by rw [hstr]; rfl
+  obtain ⟨ms, q, hmap, hgame, hplayM, hIq, hSq, habs, hrun⟩ :=
+    C07_replay_spec hL hap hlow ({ st with pos := some p }) rfl hI hS hplay
+  have hw : ∀ t ∈ sms.map Spec.moveText, PosCmd.Word t := hmap ▸ game_words hI hS hgame
+  have hne' : sms.map Spec.moveText ≠ [] := by simpa using hne
+  refine ⟨q, ?_, habs, hIq, hSq, ?_⟩
+  · rw [PosCmd.uciStep_position hts st _ (PosCmd.ends_posCmd hends hne' hw),
+      PosCmd.doPosition_moves hts st head _ hm hends hne' hw, hhead]
+    exact hrun
+  · intro h0 hlt
+    have hlen : ms.length = sms.length := by rw [← hmap, List.length_map]
+    rw [← hlen] at hlt ⊢
+    exact playM_ply hplayM h0 hlt
+
+/-- **C07 for `position startpos moves …`.** For every non-empty list of moves that the rules allow from the
+    initial position (any length), the input line consisting of `position startpos moves` and their coordinate
+    notations makes the interpreter (with the model's `ApplyUciMove`, Go's `TrimSpace`, ASCII `ToLower`) return
+    normally, print nothing, and hold a well-formed position `q` that denotes exactly the position the rules
+    define; its ply counter is the number of moves. -/
+theorem C07_position_startpos (hL : LegalLink) {ops : EngineOps} (hstr : ops.str = goStrEnv)
+    (hap : ops.applyMove = applyUciMove) (hsp : ops.startPos = startPosition) (st : UciState)
+    {sms : List Spec.Move} (hne : sms ≠ []) {P' : Spec.Pos} (hplay : Spec.play Spec.startPos sms = some P') :
+    ∃ q, uciStep ops st (startposLine (sms.map Spec.moveText))
+        = .ok (({ st with pos := some q } : UciState).clearKillers, []) ∧
+      abs q = P' ∧ Inv q ∧ OppSafe q ∧ (sms.length < 32768 → q.ply = sms.length) := by
+  rw [← abs_startPosition] at hplay
+  have hhead : parsePosition ops st Gen.uStartpos_bytes = .ok ({ st with pos := some startPosition }, none) := by
+    rw [PosCmd.parsePosition_startpos, hsp]
+  obtain ⟨q, h1, h2, h3, h4, h5⟩ := position_line hL hstr hap st Gen.uStartpos_bytes (by decide)
+    PosCmd.word_startpos.ends hhead inv_startPosition C02.oppSafe_start hne hplay
+  refine ⟨q, h1, h2, h3, h4, fun hlt => ?_⟩
+  have hp0 : startPosition.ply = 0 := by decide +kernel
+  have := h5 (by rw [hp0]; exact Int.le_refl 0) (by rw [hp0]; omega)
+  rw [this, hp0]; omega
+
+/-- **C07 for `position fen <FEN> moves …`.** `f` is a FEN text the loader accepts as `p`, with the side not
+    to move not in check (the "legal position" precondition). Further hypotheses on the TEXT, needed because
+    `doPosition` cuts the line at the first occurrence of the word `moves` and trims blanks: `f` contains no
+    letter `m` (no piece, side, castling or square letter is `m`; the half-move field, which the loader ignores,
+    could contain one), and `f` starts and ends with a non-blank ASCII character (true of every accepted text,
+    not derived here). Then, for every non-empty list of moves the rules allow from `abs p`, the line sets up a
+    well-formed position denoting exactly the position the rules define. -/
+theorem C07_position_fen (hL : LegalLink) {ops : EngineOps} (hstr : ops.str = goStrEnv)
+    (hap : ops.applyMove = applyUciMove) (st : UciState) {f : Bytes} {p : Position}
+    (hfen : parseFen f = .ok (.ok p)) (hS : OppSafe p) (hm : 109 ∉ f) (hends : PosCmd.Ends f)
+    {sms : List Spec.Move} (hne : sms ≠ []) {P' : Spec.Pos} (hplay : Spec.play (abs p) sms = some P') :
+    ∃ q, uciStep ops st (fenLine f (sms.map Spec.moveText))
+        = .ok (({ st with pos := some q } : UciState).clearKillers, []) ∧
+      abs q = P' ∧ Inv q ∧ OppSafe q ∧ (p.ply + sms.length < 32768 → q.ply = p.ply + sms.length) := by
+  have hts : ops.str.trimSpace = trimSpace := by rw [hstr]; rfl
+  have hhead : parsePosition ops st (Gen.uFen_bytes ++ 32 :: f) = .ok ({ st with pos := some p }, none) := by
+    rw [PosCmd.parsePosition_fen hts st f hends, hfen]
+    rfl
+  have hm' : 109 ∉ Gen.uFen_bytes ++ 32 :: f := by
+    simp only [Gen.uFen_bytes, List.cons_append, List.nil_append, List.mem_cons, not_or]
+    exact ⟨by decide, by decide, by decide, by decide, hm⟩
+  obtain ⟨q, h1, h2, h3, h4, h5⟩ := position_line hL hstr hap st _ hm' (PosCmd.ends_fenHead hends) hhead
+    (C02.fen_inv hfen) hS hne hplay
+  refine ⟨q, h1, h2, h3, h4, fun hlt => h5 ?_ hlt⟩
+  obtain ⟨_, _pl, _tu, _ca, _ep, _ha, _fu, _a1, _a2, _a3, _a4, _a5, _a6, _a7, _a8, _a9, _a10, _a11, _a12,
+    n, _hat, hn1, _hn2, hply⟩ := C08.fen_faithful hfen
+  rw [hply]
+  split <;> omega
+
+/-- `position startpos` (no move list) sets the start position -/
+theorem C07_position_startpos_nomoves {ops : EngineOps} (hstr : ops.str = goStrEnv) (st : UciState) :
+    uciStep ops st (Gen.uPosition_bytes ++ 32 :: Gen.uStartpos_bytes)
+      = .ok (({ st with pos := some ops.startPos } : UciState).clearKillers, []) := by
+  have hts : ops.str.trimSpace = trimSpace := by rw [hstr]; rfl
+  rw [PosCmd.uciStep_position hts st _ PosCmd.word_startpos.ends]
+  unfold doPosition positionHead
+  rw [show indexOf Gen.uMoves_bytes Gen.uStartpos_bytes = none from by decide, PosCmd.parsePosition_startpos]
+  rfl
+
+/-- non-vacuity of `C07_position_startpos`: the line `position startpos moves e2e4 e7e5 g1f3` on the model of
+    the engine, from the state of a fresh process; the position held afterwards denotes the position the
+    rules define after 1.e4 e5 2.Nf3 and has ply 3 -/
+example (blend : Blend) (tostr : Position → M Bytes) :
+    ∃ q P', Spec.play Spec.startPos demoSpecGame = some P' ∧
+      uciStep (modelOps blend tostr) UciState.init
+          (FenSpec.strBytes "position startpos moves e2e4 e7e5 g1f3")
+        = .ok (({ UciState.init with pos := some q } : UciState).clearKillers, []) ∧
+      abs q = P' ∧ Inv q ∧ OppSafe q ∧ q.ply = 3 := by
+  obtain ⟨P', hP⟩ := Option.isSome_iff_exists.mp demoSpecGame_legal
+  obtain ⟨q, h1, h2, h3, h4, h5⟩ := C07_position_startpos legalLink_holds (ops := modelOps blend tostr) rfl rfl rfl
+    UciState.init (sms := demoSpecGame) (by decide) hP
+  refine ⟨q, P', hP, ?_, h2, h3, h4, h5 (by decide)⟩
+  rw [demoSpecGame_text] at h1
+  rw [demoLine_eq]
+  exact h1
+
+/-- White Ke1 Pe2, Black Ke8, White to move, move number 10 -/
+def demoFen : Bytes := FenSpec.strBytes "4k3/8/8/8/8/8/4P3/4K3 w - - 0 10"
+
+set_option maxRecDepth 100000 in
+/-- non-vacuity of `C07_position_fen`: `position fen 4k3/8/8/8/8/8/4P3/4K3 w - - 0 10 moves e2e4`; all hypotheses
+    hold (accepted, opponent not in check, no letter `m`, no blank at either end, e2-e4 legal by the rules); the
+    ply counter goes from 18 to 19 -/
+example (blend : Blend) (tostr : Position → M Bytes) (st : UciState) :
+    ∃ p q P', parseFen demoFen = .ok (.ok p) ∧ Spec.play (abs p) [⟨12, 28, none⟩] = some P' ∧
+      uciStep (modelOps blend tostr) st (fenLine demoFen [[101, 50, 101, 52]])
+        = .ok (({ st with pos := some q } : UciState).clearKillers, []) ∧
+      abs q = P' ∧ Inv q ∧ OppSafe q ∧ q.ply = 19 := by
+  have hchk : (match parseFen demoFen with
+      | .ok (.ok p) =>
+        (Count.okVal (isUnderCheck p.board (p.side (whiteTurn p)) (p.side (!whiteTurn p)).king) == some false) &&
+          (Spec.play (abs p) [⟨12, 28, none⟩]).isSome && p.ply == 18
+      | _ => false) = true := by decide +kernel
+  split at hchk
+  · rename_i p hp
+    simp only [Bool.and_eq_true, beq_iff_eq] at hchk
+    obtain ⟨⟨h1, h2⟩, h3⟩ := hchk
+    have hS : OppSafe p := Count.okVal_eq_some h1
+    obtain ⟨P', hP⟩ := Option.isSome_iff_exists.mp h2
+    obtain ⟨q, g1, g2, g3, g4, g5⟩ := C07_position_fen legalLink_holds (ops := modelOps blend tostr) rfl rfl st hp hS
+      (by decide +kernel) (PosCmd.ends_of_B (by decide +kernel)) (sms := [⟨12, 28, none⟩]) (by decide) hP
+    refine ⟨p, q, P', hp, hP, g1, g2, g3, g4, ?_⟩
+    rw [g5 (by rw [h3]; decide), h3]
+    rfl
+  · cases hchk
+
+set_option maxRecDepth 100000 in
+/-- **Finding.** The hypothesis "no letter `m` in the FEN text" of `C07_position_fen` cannot simply be dropped:
+    the loader ignores the half-move field, so it accepts `4k3/8/8/8/8/8/4P3/4K3 w - - moves 1`; sent as
+    `position fen 4k3/8/8/8/8/8/4P3/4K3 w - - moves 1`, `doPosition` cuts the line at the word `moves`, the
+    remaining four fields are rejected ("invalid FEN") and no position is set. (Only texts whose ignored field
+    contains the word `moves` are affected; no such text is a FEN in the sense of the standard.) -/
+theorem position_fen_moves_word_finding :
+    FenSpec.accepted (parseFen (FenSpec.strBytes "4k3/8/8/8/8/8/4P3/4K3 w - - moves 1")) = true ∧
+    (match uciStep (modelOps (fun _ _ _ => 0) (fun _ => pure [])) UciState.init
+        (FenSpec.strBytes "position fen 4k3/8/8/8/8/8/4P3/4K3 w - - moves 1") with
+      | .ok (st, [.invalidFen _]) => st.pos.isNone
+      | _ => false) = true := by
+  constructor <;> decide +kernel
 
 end Magog.Props.C07
